@@ -58,6 +58,7 @@ func init() {
 		}
 		t.a.w.R.Close()
 	}
+	Replayers["c06.sharedlist"] = func(c *mc.Ctx, r map[string]interface{}) { c06SharedList(c) }
 	Replayers["c06.groups"] = func(c *mc.Ctx, r map[string]interface{}) {
 		group, _ := r["group"].(string)
 		T, _ := r["timeout"].(float64)
@@ -104,6 +105,9 @@ func (in *c06GroupInst) checkTimeouts(c *mc.Ctx, path []string, group string) {
 	rep := map[string]interface{}{"engine": "c06.groups", "ops": path, "group": group, "timeout": in.T}
 	if strings.Contains(group, "two-sources") {
 		rep["engine"] = "c06.twogroups"
+	}
+	if strings.Contains(group, "-the-list") {
+		rep["engine"] = "c06.sharedlist"
 	}
 	bad := func(sig, format string, a ...interface{}) {
 		c.Report("C06|group|"+sig, fmt.Sprintf(format, a...)+fmt.Sprintf(" [group %s T=%d, block %d = %s] after %s", group, in.T, st.height, st.desc, joinOps(path)), rep)
@@ -199,9 +203,36 @@ func c06Groups(c *mc.Ctx) {
 		}
 		b.Run()
 	}
-	c.Set("rule_groups", "BFS over block histories of one-to-many groups (2 children on 2 chains; 3 children whose third destination is unregistered) with T=2/3: begins of children in the same or later blocks, success/failure receipts, empty blocks; per block the timeout notifications of the group are compared with the group expiry model (listed for the source chain exactly in block H+T of the first accepted child if the group neither completed nor failed before), and an empty block without expiry must not change any child status")
+	c06SharedList(c)
+	c.Set("rule_groups", "BFS over block histories of one-to-many groups (2 children on 2 chains; 3 children whose third destination is unregistered) with T=2/3: begins of children in the same or later blocks, success/failure receipts, empty blocks; per block the timeout notifications of the group are compared with the group expiry model (listed for the source chain exactly in block H+T of the first accepted child if the group neither completed nor failed before), and an empty block without expiry must not change any child status; plus a group whose expiry height coincides with that of a one-to-one request of another pair - the request still listed, or already taken off the list by its receipt")
 	if c.Get("group_timeouts_expected") == 0 && !c.Expired("C06 groups") {
 		c.HarnessError("vacuous: no group timeout expected by the model")
+	}
+}
+
+// c06SharedList: a group put on a timeout list that a one-to-one request had occupied and
+// left (its receipt took it off): request B:s2->A:s1 with T=3 in block h, its receipt in
+// h+1, the group begins in h+2 with T=1, so both expire at h+3. Control: no receipt, the
+// request and the group share the list.
+func c06SharedList(c *mc.Ctx) {
+	for _, withReceipt := range []bool{true, false} {
+		gi := &c06GroupInst{c05Inst: newC05Inst("G", 1)}
+		w := gi.w
+		p3 := icPairs["p3"]
+		w.Must(w.Block(fix.IBTPTx(fix.KB, w.N.Next(fix.KB), &pb.IBTP{From: p3.from, To: p3.to, Index: 1, TimeoutHeight: 3}, fix.GoodProof)))
+		if withReceipt {
+			w.Must(w.Block(fix.IBTPTx(fix.KA, w.N.Next(fix.KA), &pb.IBTP{From: p3.from, To: p3.to, Index: 1, Type: pb.IBTP_RECEIPT_SUCCESS}, fix.GoodProof)))
+		} else {
+			w.Block()
+		}
+		path := []string{"b:c1+b:c2", "empty", "empty"}
+		name := map[bool]string{true: "G(after-a-request-left-the-list)", false: "G(sharing-the-list-with-a-request)"}[withReceipt]
+		for i, op := range path {
+			gi.applyBlock(op)
+			gi.checkTimeouts(c, append([]string{"req:p3:T3", map[bool]string{true: "receipt:p3", false: "empty"}[withReceipt]}, path[:i+1]...), name)
+		}
+		c.Add("group_shared_list_scenarios", 1)
+		w.R.Close()
 	}
 }
 
